@@ -6,3 +6,17 @@
 
 package rotemplate
 
+
+//@ func TextTemplate$1
+//@   props C18
+//@   binds v tpl template
+//@   maypanic
+//@   track call.Template.Execute call.Buffer.String
+//@   ensures [executes-the-parsed-template-once-on-the-item-and-returns-the-text|C18] trace(call.Template.Execute(tpl, _, v), call.Buffer.String(_)) && result0 == res(call.Buffer.String) && result1 == res(call.Template.Execute)
+
+//@ func HTMLTemplate$1
+//@   props C18
+//@   binds v tpl template
+//@   maypanic
+//@   track call.Template.Execute call.Buffer.String
+//@   ensures [executes-the-parsed-template-once-on-the-item-and-returns-the-text|C18] trace(call.Template.Execute(tpl, _, v), call.Buffer.String(_)) && result0 == res(call.Buffer.String) && result1 == res(call.Template.Execute)
